@@ -57,6 +57,28 @@ def _aliases(fi, kw, p, params):
     return out
 
 
+def _kw_copies(fi, kw):
+    """local names bound to (copies of) the keyword-argument mapping"""
+    out = set()
+    changed = True
+    while changed:
+        changed = False
+        for n in own_nodes(fi.node):
+            if isinstance(n, ast.Assign) and len(n.targets) == 1 and isinstance(n.targets[0], ast.Name) and n.targets[0].id not in out and n.targets[0].id != kw:
+                v = n.value
+                src_ = None
+                if isinstance(v, ast.Name):
+                    src_ = v.id
+                elif isinstance(v, ast.Call) and K.src(v.func) in ("dict", "copy.copy", "copy") and v.args and isinstance(v.args[0], ast.Name):
+                    src_ = v.args[0].id
+                elif isinstance(v, ast.Call) and isinstance(v.func, ast.Attribute) and v.func.attr == "copy" and isinstance(v.func.value, ast.Name):
+                    src_ = v.func.value.id
+                if src_ is not None and (src_ == kw or src_ in out):
+                    out.add(n.targets[0].id)
+                    changed = True
+    return out
+
+
 def pulls(idx, cls, fi, p, kind, depth=0):
     """Does `fi` (the effective execute of `cls`) take `.result` of input p on every path to its normal exit?"""
     cfg = K.cfg_of(idx, fi)
@@ -99,10 +121,30 @@ def pulls(idx, cls, fi, p, kind, depth=0):
     for c in cfg.find("call", lambda n: K.is_super_call(n.ast, "execute")):
         call = c.ast
         forwarded = False
+
+        def unwrap(e):
+            """the name of the mapping `e` forwards the caller's arguments from: dict(D, **kw), dict(kw, a=1), copy.copy(kw), kw.copy()"""
+            if isinstance(e, ast.Name):
+                return e
+            if isinstance(e, ast.Call):
+                fn = K.src(e.func)
+                if fn in ("dict", "copy.copy", "copy", "OrderedDict", "collections.OrderedDict"):
+                    if any(kk.arg == p and not is_ref(kk.value) for kk in e.keywords):
+                        return None  # the input is replaced by something else
+                    for cand_ in [kk.value for kk in e.keywords if kk.arg is None] + list(e.args):
+                        u = unwrap(cand_)
+                        if u is not None and (u.id == kw or u.id in _kw_copies(fi, kw)):
+                            return u
+                    return None
+                if isinstance(e.func, ast.Attribute) and e.func.attr == "copy" and not e.args:
+                    return unwrap(e.func.value)
+            return None
+
         for k in call.keywords:
-            if k.arg is None and isinstance(k.value, ast.Name):
+            kv = unwrap(k.value) if k.arg is None else None
+            if k.arg is None and kv is not None:
                 forwarded = True
-                fwd = k.value.id
+                fwd = kv.id
                 for n in own_nodes(fi.node):
                     if isinstance(n, ast.Delete):
                         for t in n.targets:
